@@ -10,7 +10,7 @@ RULE = ("exhaustive: row-length vectors (rows<=R, len<=L) x row selectors (ints 
         "boolean masks, Ellipsis) x column selectors (absent, ints in/out of range, slices); non-trivial = the array has "
         "an empty row, or a slice has a non-unit step or an out-of-range bound, or an integer index is negative or out of range")
 BOUNDS = {"quick": {"max_rows": 3, "max_len": 3, "row_slices": "bounds {None,-4,-1,0,1,2,4} x steps {None,2,-1,-2}",
-                    "col_slices": "bounds {None,-5,-3,-2,-1,0,1,2,3,5} x steps {None,1,2,3,-1,-2,-3}"},
+                    "col_slices": "bounds {None,-4,-2,-1,0,1,3} x steps {None,1,2,3,-1,-2,-3}"},
           "thorough": {"max_rows": 4, "max_len": 4, "row_slices": "full", "col_slices": "full"}}
 
 Q_ROW_BOUNDS = [None, -4, -1, 0, 1, 2, 4]
@@ -26,7 +26,7 @@ def row_selectors(n, tier):
         sel += [{"slice": list(s)} for s in slices()]
     for k in range(0, 3):
         for combo in itertools.product(range(-n, n), repeat=k):
-            if tier == "quick" and k == 2 and len(set(combo)) == 2 and combo[0] > combo[1] and n > 2:
+            if tier == "quick" and k == 2 and n > 2 and (combo[0] > combo[1] or combo[0] == -n):
                 continue
             sel.append({"list": list(combo)})
     if n <= 4:
@@ -38,10 +38,13 @@ def row_selectors(n, tier):
     return sel
 
 
+Q_COL_BOUNDS = [None, -4, -2, -1, 0, 1, 3]
+
+
 def col_selectors(maxlen, tier):
     sel = [None]
     sel += list(range(-maxlen - 2, maxlen + 2))
-    sel += [{"slice": list(s)} for s in slices()]
+    sel += [{"slice": list(s)} for s in (slices() if tier != "quick" else slices(Q_COL_BOUNDS))]
     sel.append({"ellipsis": 1})
     return sel
 
